@@ -388,6 +388,9 @@ def enumerate_frames(st, rng, n, part=0, parts=1):
             if pt == "initial":
                 for tl in (1, 100, 1000):
                     descs.append({"fam": "frames", "kind": "HDR_TOKEN", "pt": pt, "fr": [["ping"]], "token": tl})
+    # (slices are taken from a fixed shuffle: with two packet types alternating in the list, "every second descriptor"
+    # would put all packets of one type into one slice, and the quick tier runs one slice only)
+    random.Random(20260922).shuffle(descs)
     descs = [d for i, d in enumerate(descs) if i % parts == part]
     return pick(descs, n, rng)
 
